@@ -40,21 +40,21 @@ P_ = Const('P_', SetProd.sort()); S_ = Const('S_', Ob.sort()); fst = Const('fst'
 sqv = Const('sqv', SeqOb.sort()); iv = Const('iv', IntSort())
 Suf = Function('Suffix', SeqOb.sort(), IntSort(), SeqOb.sort())          # b[i+1:], named so that quantified clauses have a clean trigger (no arithmetic, no seq.extract)
 SUF_DEF = ForAll([sqv, iv], Suf(sqv, iv) == SubSeq(sqv, iv + 1, Length(sqv) - (iv + 1)), patterns=[Suf(sqv, iv)])
-W.axioms.append(SUF_DEF)
 def suffix(b, i): return Suf(b, i)
 FWD = Function('FOLLOW_table', SetProd.sort(), Ob.sort(), MapOS.sort(), MapOS.sort())          # the least table, as a dictionary
 DIRECT = Function('FOLLOW_direct', SetProd.sort(), Ob.sort(), MapOS.sort(), Ob.sort(), SetOb.sort())          # W1 and W2: what goes into FOLLOW[X] without propagation
 DIRECT_DEF = ForAll([P_, S_, fst, X_, x], Select(DIRECT(P_, S_, fst, X_), x) ==
                     Or(And(X_ == S_, x == END),
                        Exists([pr, i_], And(Select(P_, pr), 0 <= i_, i_ < Length(body(pr)), body(pr)[i_] == X_, x != EPSOB, Select(FSP(fst, suffix(body(pr), i_)), x)))))
-W.axioms.append(DIRECT_DEF)
 def direct(P, S, first, d):
     """W1 and W2 for the dictionary d"""
     return ForAll([X_, x], Implies(Select(DIRECT(P, S, first, X_), x), Select(F(Sym(MapOS, d), X_), x)))
 def flows(P, first, d, ready=lambda a: BoolVal(True)):
     """W3 for the dictionary d (for the heads that satisfy `ready`)"""
     D = Sym(MapOS, d)
-    return ForAll([pr, i_, x], Implies(And(Select(P, pr), 0 <= i_, i_ < Length(body(pr)), TN(first, body(pr), i_), ready(head(pr)), Select(F(D, head(pr)), x)), Select(F(D, body(pr)[i_]), x)))
+    dval = MapOS.get(D, 'val').term
+    return ForAll([pr, i_, x], Implies(And(Select(P, pr), 0 <= i_, i_ < Length(body(pr)), TN(first, body(pr), i_), ready(head(pr)), Select(F(D, head(pr)), x)), Select(F(D, body(pr)[i_]), x)),
+                  patterns=[MultiPattern(TN(first, body(pr), i_), Select(Select(dval, head(pr)), x))])
 def closed(P, S, first, d): return And(direct(P, S, first, d), flows(P, first, d))
 W.axioms.append(ForAll([P_, S_, fst], closed(P_, S_, fst, FWD(P_, S_, fst))))
 def fw_induction(P, S, first, d):
@@ -125,7 +125,8 @@ def scan_lemmas(e):
 W.contract(Contract('LLOneParser._initialize_follow_set', [('self', LLP), ('first_set', MapOS)], ret=RET,
     requires=lambda o: o.self._cfg.S.term != EPSOB, ensures=init_post,
     locals={'follow_set': MapOS},
-    entry_lemmas=lambda o: ACC_LEMMAS,
+    # the definitions of Suffix and of the direct contributions are given to this function only (get_follow_set does not need them and is slowed down by them)
+    entry_lemmas=lambda o: [('definition of Suffix', [SUF_DEF], SUF_DEF), ('definition of the direct contributions', [DIRECT_DEF], DIRECT_DEF)] + ACC_LEMMAS,
     at={'for component_next in production.body[i + 1:]': {'ghost': lambda e: {'FW0': e.follow_set, 'Q0': e.to_process}},
         'follow_set[component] = follow_set.get(component, set()).union(': {'lemmas': lambda e: (lambda first, beta, k: [
             e.component_next.term == beta[k],
